@@ -110,7 +110,7 @@ def write_pattern(path, pos, els, fmt):
 def case(draw):
     mode = draw(st.sampled_from(["replace", "replace", "replace", "find", "convert"]))
     infmt = draw(st.sampled_from(["lmpdat", "cif", "lmpdat"])) if mode != "convert" else draw(st.sampled_from(["lmpdat", "cif", "cml"]))
-    cellk = draw(st.sampled_from(["ortho", "ortho", "tilt"]))
+    cellk = draw(st.sampled_from(["ortho", "ortho", "tilt", "tilt-yz"]))
     atol_opt = draw(st.booleans())
     atol = draw(st.sampled_from([0.2, 0.3])) if atol_opt else 0.05
     pat = draw(gen_geom.pattern(classes=["generic", "chiral", "rod", "planar"], max_atoms=5, min_atoms=3, alphabet=["C", "N", "O", "H"]))
@@ -119,7 +119,8 @@ def case(draw):
     # noise: with --atol some copies are distorted beyond the default tolerance; hints need distorted copies too
     noise = (0.25, 0.35) if atol_opt else (0.0, 1 / 16.0)
     base = draw(gen_geom.planted(pat=pat, extra_diam=d_all, width_factor=2.0, max_copies=4, min_copies=3,
-                                 cell_classes=["ortho"] if cellk == "ortho" else ["tilt", "tilt-neg"], tightness=[1.5, 3.0],
+                                 cell_classes=["ortho"] if cellk == "ortho" else ["tilt-yz"] if cellk == "tilt-yz" else ["tilt", "tilt-neg"],
+                                 tightness=[1.5, 3.0],
                                  with_decoys=False, with_hints=False, noise_levels=noise, atols=[atol], bystanders=2,
                                  pose_classes=["random", "axis", "random"]))
     n = len(pat["pos"])
@@ -134,7 +135,7 @@ def case(draw):
         opts["hints"] = h
     if draw(st.booleans()) and infmt != "cml":
         opts["replicate"] = draw(st.sampled_from([[2, 1, 1], [1, 2, 1], [1, 1, 2], [2, 1, 2], [1, 2, 2]]))
-    if draw(st.booleans()) and infmt != "cml" and cellk == "ortho":
+    if draw(st.booleans()) and infmt != "cml":      # for a cell that is not orthorhombic the documented outcome is: no replication
         diag = np.diag(np.array(base["cell"]))
         ax = draw(hperm.integers(0, 2))
         # 2 mic / L in (1, 2] along one axis  ->  exactly 2 replicas there; also ratios a hair (2e-4 .. 3e-4, far above
@@ -149,8 +150,13 @@ def case(draw):
         opts["framework_element"] = draw(st.sampled_from(["Xe", "Au"]))
         outfmt = "xyz"
     groups = [draw(hperm.integers(0, 1)) for _ in base["sels"]]
+    pels = list(pat["els"])
+    if mode == "find" and draw(hperm.integers(0, 4)) == 0:
+        # a pattern that does not occur (an element the structure does not contain): nothing found, the structure is still written
+        pels[draw(hperm.integers(0, len(pels) - 1))] = "Xe"
+        opts["absent"] = True
     return {"mode": mode, "infmt": infmt, "outfmt": outfmt, "cell": base["cell"], "spos": base["spos"], "sels": base["sels"],
-            "groups": groups, "ppos": pat["pos"], "pels": pat["els"], "rpos": rp["pos"], "rels": rp["els"],
+            "groups": groups, "ppos": pat["pos"], "pels": pels, "rpos": rp["pos"], "rels": rp["els"],
             "findfmt": draw(st.sampled_from(["cml", "lmpdat", "cif"])), "replfmt": draw(st.sampled_from(["cml", "lmpdat", "cif"])),
             "opts": opts, "seeds": base["seeds"], "meta": base["meta"], "split_types": draw(st.booleans())}
 
